@@ -88,7 +88,8 @@ def _format_column(col, max_preview: int | None = None) -> List[str]:
 		elif v is None:
 			out.append('None')
 		elif col._dtype and col._dtype.kind is float:
-			out.append(f"{v:.1f}" if v == int(v) else f"{v:g}")
+			# NaN and infinities have no integer value; format them as-is
+			out.append(f"{v:.1f}" if (v == v and v not in (float('inf'), float('-inf')) and v == int(v)) else f"{v:g}")
 		elif col._dtype and col._dtype.kind is int:
 			out.append(str(v))
 		elif col._dtype and col._dtype.kind is date:
